@@ -66,3 +66,74 @@ def pred_result(run, env):
 
 
 SINGLE = '(is_none(contexts) or rows(contexts) == 1)'
+
+
+S0 = 'old(rngstate(self.rng))'
+M_ROWS = 'rows(contexts)'
+N_ARMS = 'slen(self.arms)'
+
+# ---- arm changes (BaseMAB.add_arm / remove_arm with each class's hooks).  MAB has already appended / removed
+# the label in the shared arm list when these run.
+ADD_REQ = ['INV~arms', 'self.arms == appended(keys(self.arm_to_expectation), arm)',
+           'not inkeys(self.arm_to_expectation, arm)']
+REM_REQ = ['INV~arms', 'self.arms == removed(keys(self.arm_to_expectation), arm)',
+           'inkeys(self.arm_to_expectation, arm)']
+
+STATUS_AFTER_FIT = forall_arms('val(self.arm_to_status, a, "is_trained") == (cnt(decisions, a) > 0) and '
+                               'not val(self.arm_to_status, a, "is_warm") and '
+                               'val(self.arm_to_status, a, "warm_started_by") == NONE_ARM()')
+STATUS_AFTER_PARTIAL = forall_arms(
+    'val(self.arm_to_status, a, "is_trained") == (old(val(self.arm_to_status, a, "is_trained")) or cnt(decisions, a) > 0) '
+    'and val(self.arm_to_status, a, "is_warm") == old(val(self.arm_to_status, a, "is_warm")) and '
+    'val(self.arm_to_status, a, "warm_started_by") == old(val(self.arm_to_status, a, "warm_started_by"))')
+
+
+def unchanged(maps, status=True):
+    parts = ['val(self.%s, a) == old(val(self.%s, a))' % (m, m) for m in maps]
+    if status:
+        parts += ['val(self.arm_to_status, a, "%s") == old(val(self.arm_to_status, a, "%s"))' % (c, c)
+                  for c in ('is_trained', 'is_warm', 'warm_started_by')]
+    return ' and '.join(parts)
+
+
+def arm_change_contracts(cls, maps, neutral, extra_modifies=(), others=True, props='C01 C08', rem_req=()):
+    """Contracts of BaseMAB.add_arm / remove_arm for receiver class `cls` whose per-arm dictionaries are `maps`."""
+    mods = ['self.%s{}' % m for m in maps] + ['self.arm_to_status{}'] + list(extra_modifies)
+    ens_add = ['INV', '[C01,C03,neutral] ' + neutral + ' and ' + status_fresh('arm')]
+    ens_rem = ['INV']
+    if others:
+        ens_add.append('[C01,others] forall_arm(lambda a: implies(old(inkeys(self.arm_to_expectation, a)), %s))'
+                       % unchanged(maps))
+        ens_rem.append('[C01,others] forall_arm(lambda a: implies(inkeys(self.arm_to_expectation, a), %s))'
+                       % unchanged(maps))
+    fn('base_mab.BaseMAB.add_arm', cls=cls, props=props, params={'arm': 'arm', 'binarizer': 'opt:callable'},
+       requires=ADD_REQ, modifies=mods, ensures=ens_add)
+    fn('base_mab.BaseMAB.remove_arm', cls=cls, props=props, params={'arm': 'arm'},
+       requires=REM_REQ + list(rem_req), modifies=mods, ensures=ens_rem)
+
+
+def predict_contracts(module, cls, E1, EM, stream1, streamM, modifies=('self.rng.rng.state',), requires=('INV',),
+                      props_pe='C01 C08 C09 C10', props_p='C08 C09 C10'):
+    """predict_expectations / predict of a context-free policy.  E1 / EM: expectation reported for arm `a` with
+    no contexts or one row / for row j of several rows, as a term over the entry state; stream1 / streamM: the
+    stream state afterwards."""
+    q = '%s.%s' % (module, cls)
+    fn(q + '.predict_expectations', props=props_pe, params=PRED_PARAMS, result=pe_result,
+       requires=list(requires), modifies=list(modifies),
+       ensures=['[C08,shape] is_dict(result) == %s' % SINGLE,
+                '[C08,keys] (keys(result) == self.arms) if is_dict(result) else (slen(result) == rows(contexts) and '
+                'forall_int(lambda j: implies(0 <= j and j < rows(contexts), keys(item(result, j)) == self.arms)))',
+                '[C01,C09,values] (forall_arm(lambda a: implies(mem(self.arms, a), val(result, a) == %s))) '
+                'if is_dict(result) else forall_int(lambda j: implies(0 <= j and j < rows(contexts), '
+                'forall_arm(lambda a: implies(mem(self.arms, a), val(item(result, j), a) == %s))))' % (E1, EM),
+                '[C10,stream] rngstate(self.rng) == ((%s) if is_dict(result) else (%s))' % (stream1, streamM)])
+    fn(q + '.predict', props=props_p, params=PRED_PARAMS, result=pred_result,
+       requires=list(requires) + ['slen(self.arms) > 0'], modifies=list(modifies),
+       ensures=['[C08,shape] is_list(result) == (not %s)' % SINGLE,
+                # C09: the first arm attaining the maximum of the expectations predict_expectations returns
+                '[C09,argmax] (result == argmax_over(self.arms, lambda a: %s)) if not is_list(result) else '
+                '(slen(result) == rows(contexts) and forall_int(lambda j: implies(0 <= j and j < rows(contexts), '
+                'at(result, j) == argmax_over(self.arms, lambda a: %s))))' % (E1, EM),
+                '[C08,member] mem(self.arms, result) if not is_list(result) else '
+                'forall_int(lambda j: implies(0 <= j and j < rows(contexts), mem(self.arms, at(result, j))))',
+                '[C10,stream] rngstate(self.rng) == ((%s) if not is_list(result) else (%s))' % (stream1, streamM)])
